@@ -61,6 +61,8 @@ class Profile:
         self.any_binary = kw.get("any_binary", True)
         self.externals = kw.get("externals", True)
         self.body_bias = kw.get("body_bias", False)   # C08: most arguments are bodies / typed parameters
+        self.limit_bias = kw.get("limit_bias", 0.15)    # probability of a server-limit-request-size tag on an endpoint with a body
+        self.plain_aliases = kw.get("plain_aliases", False)   # C12: an alias and an alias-of-alias of every PLAIN primitive
 
 
 class LabGen:
@@ -220,8 +222,13 @@ class LabGen:
         kinds = []
         for i in range(p.n_types):
             kinds.append(r.choices(["object", "union", "alias", "enum"], [5, 2, 3, 2])[0])
+        plain_prims = ["STRING", "INTEGER", "SAFELONG", "DOUBLE", "BOOLEAN", "UUID", "RID", "BEARERTOKEN", "DATETIME", "BINARY"] if p.plain_aliases else []
+        kinds = ["alias"] * (2 * len(plain_prims)) + kinds
         self._planned = [(k, self.fresh_type_name(), r.choice(p.packages)) for k in kinds]
         self._forced_alias = {}
+        for k, pp in enumerate(plain_prims):
+            self._forced_alias[k] = prim(pp)
+            self._forced_alias[len(plain_prims) + k] = ref(self._planned[k][1], self._planned[k][2])
         for i, (kind, name, pkg) in enumerate(self._planned):
             d = TDef(kind, name, pkg)
             if kind == "enum":
@@ -416,7 +423,7 @@ class LabGen:
                 tags = []
                 if r.random() < 0.1:
                     tags.append("server-request-context")
-                if has_body and r.random() < 0.15:
+                if has_body and r.random() < self.p.limit_bias:
                     tags.append("server-limit-request-size: %s" % r.choice(["100b", "2kb", "1 MiB", "5mb"]))
                 if r.random() < 0.5:
                     r.shuffle(args)      # declaration order is independent of the order in the path template
